@@ -19,11 +19,11 @@ add("C16", "exploration", "runtime contracts around typed-integer construction c
     "Every clause of the property is evaluated on the real classes for all 102 primitive types: exhaustively for 8-bit "
     "(and, thorough, 16-bit) types, at every allowed-interval boundary and seeded samples for wider types; operators in both "
     "operand orders; families of types sharing a base enumeration are also checked back to back in one process. Held on what was "
-    "enumerated; wider types are sampled.",
+    "enumerated; wider types are sampled. For every 32/64-bit type a run of 3000 (thorough 70000) distinct valid values is constructed and the early ones revisited.",
     "Trusted: CPython int semantics; pinned widths/sets/names.", "DESIGN.md 4/C16")
 add("C17", "exploration", "bit-arithmetic oracle over live masks, accessors and printed rows (masks exhaustive)",
     "Masks of all 12 attribute types are checked exhaustively (disjoint, covering, equal to the pinned fields); accessors and "
-    "printer rows are checked on all 256 values of 8-bit types and on walking/single-field/seeded words for 32-bit types.",
+    "printer rows are checked on all 256 values of 8-bit types and on walking/single-field/seeded words for 32-bit types. Words are also checked where they occur (inside structures and messages with sessions) and when built by other routes (typed word, sized integer type, named masks combined with |).",
     "Trusted: pinned field masks. Rows are parsed from the printer's text output.", "DESIGN.md 4/C17")
 add("C18", "exploration", "exhaustive comparison with a reference classifier written from TPM 2.0 Part 2 6.6",
     "All 12 289 codes of the stated finite space are classified by an independent reference and compared with the text form, "
@@ -31,13 +31,13 @@ add("C18", "exploration", "exhaustive comparison with a reference classifier wri
     "Trusted: the 30-line reference classifier and the pinned name tables.", "DESIGN.md 4/C18")
 add("C20", "exploration", "invariant walk over the live layout tables at the quiescent point after import + equality with the pinned snapshot",
     "Exhaustive over the finite tables: every coherence rule of the statement on every live type and table entry, and a "
-    "node-by-node comparison of the walked layout with the pinned snapshot.",
+    "node-by-node comparison of the walked layout with the pinned snapshot. The walk runs in 6 (thorough 24) fresh interpreters with different string hash seeds; after use (membership probes in three orders, a decode workload, hostile scenes) the allowed sets are probed by membership and the walk is repeated.",
     "Trusted: layout/pinned_layout.json (committed data).", "DESIGN.md 4/C20")
 
 add("C01", "exploration", "boundary trace of the strict decoder compared event-by-event with an executable reference model over a pinned layout snapshot",
     "Complete event lists (path, declared type, value, value class) of the real strict decoder are compared with an independent "
     "reference interpreter on generated encodings of all 232 non-union types, all 117 codes x 2 directions x 12 configurations, "
-    "every selector value, and the captured corpus. Held on the executions observed; anchors prove every walker ran.",
+    "every selector value, and the captured corpus. Held on the executions observed; anchors prove every walker ran. Hostile scenes (aborted, abandoned, still-open decodes) run between the judged decodes, every fifth decode is rooted at another path, every worker has its own string hash seed, and held events are read again later.",
     "Trusted: pinned layout snapshot, the reference's framing rules; generator/reference self-check.", "DESIGN.md 4/C01")
 add("C03", "fault_enumeration", "size-fault enumeration on recorded decodes checked against the reference's region model (class, path, limit, counted, offender, events before)",
     "Exhaustive per message over the listed perturbations of every size/count field, plus exhaustive small-alphabet strings for "
@@ -45,14 +45,14 @@ add("C03", "fault_enumeration", "size-fault enumeration on recorded decodes chec
     "Trusted: reference region model. Tolerances: simultaneous violations (any region), overrun beyond end of input may be 'depleted'.", "DESIGN.md 4/C03")
 add("C04", "fault_enumeration", "value-fault enumeration on recorded decodes checked against the pinned allowed sets (iff, first offender, details, events before)",
     "Every constrained leaf of the base messages is set to boundary, just-outside and far-outside values; acceptance iff in the "
-    "pinned set, error details and allowed-set membership probes compared.",
+    "pinned set, error details and allowed-set membership probes compared. Also: successful responses decoded with reserved command codes (prefix-of-real-decode and byte-accounting oracle).",
     "Trusted: pinned allowed sets.", "DESIGN.md 4/C04")
 add("C05", "fault_enumeration", "truncation at every byte offset and appended suffixes, outcome and command_code attribute checked against the reference's spans and message boundaries",
-    "Exhaustive per input over all cut points (incl. the empty input) for structures, commands, responses and streams.",
+    "Exhaustive per input over all cut points (incl. the empty input) for structures, commands, responses and streams. The surplus bytes of an error are read twice (before and after formatting it); every fifth decode is rooted at another path.",
     "Trusted: reference spans/boundaries. Tolerances for command_code as listed in DESIGN.md 5.1.", "DESIGN.md 4/C05")
 add("C13", "fault_enumeration", "byte-conservation law checked on every recorded strict rejection (emitted + offending + remaining = input)",
     "All strict rejections of the size/value fault enumeration and of the exhaustive small-alphabet strings are checked, including "
-    "problems detected on the very last byte (counted in the evidence).",
+    "problems detected on the very last byte (counted in the evidence). Every rejection is repeated with the bytes supplied by another kind of source (generator, iterator, closing iterator, file objects, hex front-end, bytes, bytearray, list) and must account for the bytes in the same way.",
     "Trusted: region end of an overrun taken from the reference (fallback: the error's own figures).", "DESIGN.md 4/C13")
 
 add("C02", "exploration", "byte-conservation law over the recorded event chunks (slice at running offset, pinned width) plus icontract post-conditions on the serialisation leaf functions",
@@ -74,19 +74,19 @@ add("C08", "fault_enumeration", "model-free tiling monitor over the warn-mode bo
     "Warn-mode decodes of every fault class (size, nested pairs of size faults with a trailer, value, truncation, suffix, "
     "small-alphabet exhaustive, mutations, random / mis-typed inputs, streams with a malformed message or an abandoned command in "
     "the middle) are checked by rules T1-T7 and M1/M3; each violation is keyed by the first bookkeeping fault seen by the hooked "
-    "constraint state.",
+    "constraint state. Whole streams are bases of the fault enumeration (faults in any message including the last); every fifth decode is rooted at another path.",
     "Size fields are recognised from the declared type of the parent event. Known finding D10 (assertion on the encryption flag).", "DESIGN.md 4/C08")
 
 add("C09", "exploration", "differential on schedules: stream decode vs per-message decodes (boundaries and pairing from the reference), plus events_to_objs pairing",
     "Generated streams (sessions, encryption, failures, same code back to back, ending after a command) and per-file corpus streams; "
-    "the stream's events must equal the concatenation of the individual decodes, each individual decode the reference's events, and objects must pair one per message.",
+    "the stream's events must equal the concatenation of the individual decodes, each individual decode the reference's events, and objects must pair one per message. Every third stream is decoded under another root path; object conversion is fed with a list, an iterator and the live decoder; warn mode: padded messages (also the last one) against the concatenation of individual warn-mode decodes.",
     "Message boundaries and the command->response pairing come from the reference interpreter.", "DESIGN.md 4/C09")
 add("C10", "fault_enumeration", "ordering law over the pull log of a counting byte source (look-ahead distance), prefix stability at every cut point, result equality across source kinds, pull logs of the lazy front-ends",
     "Every cut point of the base inputs (quick: sampled for long inputs), 10 source kinds, hex / swtpm renderings through a counting "
-    "character source and several files through logged read() calls.",
+    "character source and several files through logged read() calls. Warn mode is held to the same look-ahead and prefix laws (whole input and cut points).",
     "pcapng is documented non-lazy and excluded from the look-ahead clause.", "DESIGN.md 4/C10")
 add("C11", "exploration", "round-trip identities between decoder object, events_to_obj, obj_to_events, re-encoding and the Canonical facade, compared in full",
-    "All structure types (incl. empty structured TPM2Bs, every payload-less union arm), all codes x directions x configurations, corpus.",
+    "All structure types (incl. empty structured TPM2Bs, every payload-less union arm), all codes x directions x configurations, corpus. The Canonical facade is used lazy and eager, events first and object first, every read repeated; events_to_obj is fed with a list, an iterator and the live decoder; hostile scenes run in between.",
     "Equality is the library's own == plus identity of declared types and value classes.", "DESIGN.md 4/C11")
 add("C12", "exploration", "history checker: every completed decode compared with the first decode of the same arguments under sequential, step-wise interleaved and threaded schedules",
     "Pools with encrypted parameter areas of different commands, stand-alone structures (whole / truncated / warn mode), "
@@ -95,7 +95,7 @@ add("C12", "exploration", "history checker: every completed decode compared with
     "No shared-memory concurrency exists in the code; schedules are interleavings of independent generators.", "DESIGN.md 4/C12")
 add("C14", "exploration", "row model computed from recorded events compared line by line with the pretty printer and the events printer",
     "Event streams of well-formed and malformed inputs in both modes; rows, order, byte buffers, bit rows, warnings, indentation "
-    "and value text are compared after stripping colour codes and collapsing blanks.",
+    "and value text are compared after stripping colour codes and collapsing blanks. A third of the completed decodes are also printed from a list, a tuple and the live decoder (lazy pipeline).",
     "The row of a non-byte list parent may come late; it is mandatory when the list has no elements. Sequences of different response codes / attribute words are printed back to back in one process. TPM_RC bit rows come from attributes() (validated by C18).", "DESIGN.md 4/C14")
 add("C15", "exploration", "differential against the binary decode of the carried bytes for noisy container renderings + reference recognisers over exhaustive small-alphabet strings",
     "hex / swtpm-log / pcapng / auto on generated streams with layout noise; all strings to length 5 (6) over 10 symbols for the hex "
@@ -103,7 +103,7 @@ add("C15", "exploration", "differential against the binary decode of the carried
     "dpkt is trusted for writing and reading captures. Known finding D14 (Auto and hex text not starting with a pair).", "DESIGN.md 4/C15")
 add("C19", "exploration", "process-level observer: CLI stdout/stderr/status compared with in-process library output and with the reference's strict classification",
     "convert over every input x output format and type choice (streams, single messages, structures, malformed, stdin, several files), "
-    "refusals, `type` listings, `example` blocks re-decoded.",
+    "refusals, `type` listings, `example` blocks re-decoded. Command names are covered systematically (one per first letter + a moving window; thorough all) with near-miss names that must be refused; several files are split at and inside messages, with --in binary and with auto-detection.",
     "Lines compared with colour codes stripped and blanks collapsed.", "DESIGN.md 4/C19")
 
 NOT_YET = "monitor not built yet in this phase; will be claimed once validated on the unchanged tree"
